@@ -73,7 +73,7 @@ def check_program(ctx, line, sp, events, profile, stage):
             err = type(ex).__name__
             obs = [NANV] * len(exp)
         events.append({'prog': e, 'x': x_abs, 'val': obs, 'w': U.PROFILE_WQ[profile], 'err': err, 'mode': 'oop',
-                       'profile': profile})
+                       'profile': profile, 'deep': stage == 'sim'})
         if err:
             ctx.violation(dict(sig0, clause='call-raised', exc=err), dict(detail0, x=x_abs))
             continue
@@ -89,7 +89,7 @@ def check_program(ctx, line, sp, events, profile, stage):
                 r = op(x, out=out)
                 obs2, note2 = sp.project('V', out, D)
                 events.append({'prog': e, 'x': x_abs, 'val': obs2, 'w': U.PROFILE_WQ[profile], 'err': '', 'mode': 'ip',
-                               'profile': profile})
+                               'profile': profile, 'deep': stage == 'sim'})
                 if obs2 != exp:
                     ctx.violation(dict(sig0, clause='value', mode='in-place'),
                                   dict(detail0, x=x_abs, observed=obs2, note=note2))
@@ -186,7 +186,7 @@ def run(ctx):
     jobs = []
     for prof in ('R', 'RW', 'C'):
         jobs.append(('exh', prof, 's' if (quick or prof != 'R') else 'm3', None, None))
-        jobs.append(('sim', prof, 'l', 'num=%d' % (150 if quick else 1500), 7))
+        jobs.append(('sim', prof, 'l', 'num=%d' % (100 if quick else 1500), 7))
 
     def go(j):
         name, prof, size, sim, depth = j
@@ -230,6 +230,12 @@ def run(ctx):
     ctx.traces += nprog
     ctx.extra['programs_replayed'] = nprog
     # --- code -> spec
+    if quick:
+        # every evaluation was already compared with the value TLC exported; TLC re-derives (code -> spec) the inverse
+        # events, the events of simulated (deep) programs and every third event of the exhaustive programs
+        keep = [ev for i, ev in enumerate(events) if ev.get('kind') == 'inv' or ev.get('deep') or i % 3 == 0]
+        ctx.extra['trace_events_sampled_from'] = len(events)
+        events = keep
     fails = validate_events(ctx, events)
     for eid, clauses in fails:
         ev = events[eid]
